@@ -80,13 +80,31 @@ class Line(GeoBody):
             return False
 
     def __hash__(self):
-        """Return hash of a Line"""
+        """Return hash of a Line
+
+        Equal lines have the same hash whatever support point and
+        whatever (parallel) direction vector they were built from.
+        """
+        d = self.dv.normalized()
+        # the direction is only defined up to its sign: make the first
+        # component that is not (nearly) zero positive
+        for c in d:
+            if abs(c) > get_eps():
+                if c < 0:
+                    d = -d
+                break
+        # the point of the line closest to the origin does not depend on
+        # the support point
+        foot = self.sv - (self.sv * d) * d
         return hash(
             (
                 "Line",
-                round(self.dv[0], get_sig_figures()),
-                round(self.dv[1], get_sig_figures()),
-                round(self.dv[0] * self.sv[1] - self.dv[1] * self.sv[0], get_sig_figures()),
+                round(d[0], get_sig_figures()),
+                round(d[1], get_sig_figures()),
+                round(d[2], get_sig_figures()),
+                round(foot[0], get_sig_figures()),
+                round(foot[1], get_sig_figures()),
+                round(foot[2], get_sig_figures()),
             )
         )
 
